@@ -4,6 +4,8 @@ import Unsized.PtrLemmasSwap
 import Unsized.PtrLemmasFresh
 import Unsized.AccessLemmasFail
 import Unsized.PtrMachine
+import Unsized.PtrChainNotify
+import Unsized.PtrChainNav
 /-!
 # C03 — Resizing never reads or writes outside the account's allocation; swapped accessors are detected
 
@@ -334,5 +336,49 @@ example : ((subtreeAt exP2 [.kid 1]).bind fun q => replaceAt exP1 [.kid 1] q).ma
     (checkTop ⟨1000, 1000 + 60 + 10240⟩) = some false := by decide
 example : ((subtreeAt exP2 [.kid 2]).bind fun q => replaceAt exP1 [.kid 2] q).map
     (checkTop ⟨1000, 1000 + 60 + 10240⟩) = some false := by decide
+
+/-! ## ptrs_fresh (proved by b-machine about the definitions of `Unsized/PtrTree.lean`; files `Unsized/Ptr.lean`,
+`PtrFresh.lean`, `PtrChain.lean`, `PtrChainNotify.lean`, `PtrChainNav.lean`) -/
+
+/-- `get_ptr` on canonical bytes is the value-level tree `treeOf` (what "a fresh parse would produce"). -/
+theorem get_ptr_canonical (s : Shape) (v : Val) (rest : List Nat) (base : Nat) (g : Good s v)
+    (ht : rest = [] ∨ s.zst = false) :
+    getPtr s (encode s v ++ rest) base = .ok (Unsized.Ptr.treeOf s v base, size s v) :=
+  Unsized.Ptr.getPtr_encode s v rest base g ht
+
+/-- **ptrs_fresh (one notification).** `chainOf s v b p` is the top pointer object after taking the live
+accessors along `p` on canonical bytes of `v` (every `UnsizedList` on the way holds the cached, armed
+pointer of the entered element; everything else is `get_ptr` of its bytes). When the sub-value at `p`
+changes its size by `±amt` (bytes after the move, enclosing headers still stale — the snapshot of the
+`notify` event), the `resize_notification` broadcast turns it into `chainOf` of the NEW value: every live
+pointer, cached inner pointers included, equals a fresh `get_ptr` of the new bytes at its place.
+
+Full statement (DESIGN): "after every step each live pointer tree equals `getPtr` of the new bytes".
+Proved: the notification step, for every shape / value / path (hypothesis `hself`: the resized node's own
+pointer reacts correctly to its own notification — discharged for leaf pointers and lists by
+`Ptr.self_notify_leaf/_ulist/_umap`). Missing, hence `_partial`: the composition with the op-level epilogue
+of the pointer machine (`opAt`: length metadata, replaced pointer after `set_data_inner`, stale non-live
+caches left by `insert`) into an invariant of `PtrM` runs; that part is tied differentially only (the
+driver takes every offset from the pointer tree). -/
+theorem ptrs_fresh_partial (p : List Step) (s : Shape) (v : Val) (t : Shape) (u u' : Val) (g : Good s v)
+    (hu : s ≠ .unit) (hz : s.zst = false) (g' : Good s (subst s v p u')) (h : resolve s v p = .ok (t, u))
+    (pre post : List Nat) (b src : Nat) (neg : Bool) (amt : Nat)
+    (hb : b = pre.length) (hX : (encode t u').length = applyDelta neg amt (encode t u).length)
+    (hneg : neg = true → amt ≤ (encode t u).length) (hsrc : src = b + offsetOf s v p)
+    (hlim : b + (encode s v).length + amt < Shape.usizeLim)
+    (usz : Nat → Nat)
+    (husz : usz = (fun a => rd32 (pre ++ splice (encode s v) (offsetOf s v p) (encode t u).length (encode t u') ++ post) a))
+    (hself : resizeNotify usz src neg amt (Unsized.Ptr.treeOf t u src) = some (Unsized.Ptr.treeOf t u' src)) :
+    resizeNotify usz src neg amt (Unsized.Ptr.chainOf s v b p)
+      = some (Unsized.Ptr.chainOf s (subst s v p u') b p) :=
+  Unsized.Ptr.ptrs_fresh p s v t u u' g hu hz g' h pre post b src neg amt hb hX hneg hsrc hlim usz husz hself
+
+/-- The pointer machine's navigation (`locTree`) finds, at every live depth, exactly the chain of that
+sub-value: live levels designate the sub-values at their paths. -/
+theorem live_levels_located (s : Shape) (v : Val) (q r : List Step) (tq : Shape) (uq : Val) (t : Shape) (u : Val)
+    (b : Nat) (g : Good s v) (hq : resolve s v q = .ok (tq, uq)) (hr : resolve tq uq r = .ok (t, u)) :
+    ∃ tp, PtrM.locTree s (Unsized.Ptr.chainOf s v b (q ++ r)) q
+      = some (tp, tq, Unsized.Ptr.chainOf tq uq (b + offsetOf s v q) r) :=
+  Unsized.Ptr.locTree_chainOf s v q r tq uq t u b g hq hr
 
 end Unsized.C03
